@@ -446,3 +446,138 @@ func genVEXArchive(rnd *hx.Rand, n int) []byte {
 	tw.Close()
 	return zst(buf.Bytes())
 }
+
+// genEPSSCSVVaried is the EPSS file with the variety the CSV reader has
+// branches for: LF or CRLF line ends, comment and empty lines between records,
+// scores with exponents, a last line with or without its line end.
+func genEPSSCSVVaried(rnd *hx.Rand, n int) []byte {
+	nl := "\n"
+	if rnd.Chance(1, 3) {
+		nl = "\r\n"
+	}
+	var b strings.Builder
+	if rnd.Chance(1, 5) {
+		b.WriteString(nl)
+	}
+	b.WriteString("#model_version:v2023.03.01,score_date:2024-10-25T00:00:00+0000" + nl)
+	if rnd.Chance(1, 4) {
+		b.WriteString("# a comment before the header" + nl)
+	}
+	b.WriteString("cve,epss,percentile" + nl)
+	score := func() string {
+		switch rnd.Intn(4) {
+		case 0:
+			return fmt.Sprintf("%d.%de-%02d", 1+rnd.Intn(9), rnd.Intn(100), 1+rnd.Intn(9))
+		case 1:
+			return fmt.Sprintf("0.%09d", rnd.Intn(1000000000))
+		default:
+			return fmt.Sprintf("0.%05d", rnd.Intn(100000))
+		}
+	}
+	for i := 0; i < n; i++ {
+		if rnd.Chance(1, 7) {
+			b.WriteString("#comment," + score() + nl)
+		}
+		if rnd.Chance(1, 9) {
+			b.WriteString(nl)
+		}
+		fmt.Fprintf(&b, "CVE-2023-%04d,%s,%s", 1000+i, score(), score())
+		if i < n-1 || rnd.Chance(2, 3) {
+			b.WriteString(nl)
+		}
+	}
+	return []byte(b.String())
+}
+
+// genNVDVaried: the NVD year file, compact or indented, with or without a
+// final line end.
+func genNVDVaried(rnd *hx.Rand, year, n int) []byte {
+	b := genNVD(rnd, year, n)
+	if rnd.Chance(1, 2) {
+		var out bytes.Buffer
+		json.Indent(&out, b, "", " ")
+		b = out.Bytes()
+	}
+	if rnd.Chance(1, 2) {
+		b = append(b, '\n')
+	}
+	return b
+}
+
+// genVEXArchiveLive is an archive whose advisories all yield vulnerabilities
+// (none has the status "deleted"); it returns the member names as well.
+func genVEXArchiveLive(rnd *hx.Rand, n int) ([]byte, []string) {
+	var buf bytes.Buffer
+	var names []string
+	tw := tar.NewWriter(&buf)
+	for i := 0; i < n; i++ {
+		line := genVEXLine(rnd, i)
+		for bytes.Contains(line, []byte(`"status":"deleted"`)) {
+			line = genVEXLine(rnd, i)
+		}
+		var pretty bytes.Buffer
+		json.Indent(&pretty, line, "", " ")
+		name := fmt.Sprintf("2024/cve-2024-%05d.json", 10000+i)
+		names = append(names, name)
+		tw.WriteHeader(&tar.Header{Name: name, Mode: 0o644, Size: int64(pretty.Len()), Typeflag: tar.TypeReg})
+		tw.Write(pretty.Bytes())
+	}
+	tw.Close()
+	return zst(buf.Bytes()), names
+}
+
+// vexUpdated is the newer version of every member of the archive, by name.
+func vexUpdated(archive []byte) map[string][]byte {
+	out := map[string][]byte{}
+	plain, _ := decompressAll("zstd", archive)
+	tr := tar.NewReader(bytes.NewReader(plain))
+	for {
+		h, err := tr.Next()
+		if err != nil {
+			return out
+		}
+		var b bytes.Buffer
+		b.ReadFrom(tr)
+		out[h.Name] = bytes.Replace(b.Bytes(), []byte("A flaw was found"), []byte("An updated flaw was found"), 1)
+	}
+}
+
+// genVEXCSV is a changes.csv / deletions.csv: unquoted "path,time" records
+// over distinct names of the archive (and, for changes, possibly one advisory
+// that is not in the archive).
+func genVEXCSV(rnd *hx.Rand, names []string, n int, changes bool) []byte {
+	nl := "\n"
+	if rnd.Chance(1, 3) {
+		nl = "\r\n"
+	}
+	pool := append([]string(nil), names...)
+	if changes {
+		pool = append(pool, "2023/cve-2023-99999.json")
+	} else {
+		pool = append(pool, "2023/cve-2023-00001.json", "2022/cve-2022-123456.json")
+	}
+	for i := len(pool) - 1; i > 0; i-- {
+		j := rnd.Intn(i + 1)
+		pool[i], pool[j] = pool[j], pool[i]
+	}
+	if n > len(pool) {
+		n = len(pool)
+	}
+	var b strings.Builder
+	for i := 0; i < n; i++ {
+		t := fmt.Sprintf("2024-05-%02dT%02d:%02d:%02d", 2+rnd.Intn(20), rnd.Intn(24), rnd.Intn(60), rnd.Intn(60))
+		if rnd.Chance(1, 2) {
+			t += "Z"
+		} else {
+			t += fmt.Sprintf("+%02d:00", rnd.Intn(3))
+		}
+		fmt.Fprintf(&b, "%s,%s", pool[i], t)
+		if i < n-1 || rnd.Chance(2, 3) {
+			b.WriteString(nl)
+		}
+		if rnd.Chance(1, 8) {
+			b.WriteString(nl)
+		}
+	}
+	return []byte(b.String())
+}
